@@ -122,7 +122,7 @@ def compare(orig, loaded, rules, path="$"):
     co, cl = _canon(orig, rules, True), _canon(loaded, rules, False)
     if co != cl:
         return (path, f"{orig!r} ({type(orig).__name__}) became {loaded!r} "
-                      f"({type(loaded).__name__})")
+                      f"({type(loaded).__name__})", orig, loaded)
     return None
 
 
